@@ -1175,6 +1175,10 @@ func (e *Exec) toSort(v Term, want Sort) Term {
 		if n, ok := litVal(v); ok && n >= 0 {
 			return BVLit(uint64(n))
 		}
+		// integer literals (also those beyond int64) become word literals, so that the bit library's constant patterns match
+		if n, ok := new(big.Int).SetString(v.S, 10); ok && n.Sign() >= 0 && n.BitLen() <= 64 {
+			return BVLit(n.Uint64())
+		}
 		return mk(SBV64, "(_ int2bv 64)", v)
 	}
 	return v
